@@ -462,7 +462,7 @@ def main():
     chk.assumptions = ['python html.parser tokenizes the html output; void-element and raw-text rules are those of HTML 4', 'with indent, a whitespace-only text node that has no counterpart in the base result and does not touch an existing text node is allowed',
                        'html: whitespace-only text nodes are ignored in the comparison even with indent=no (the serializer may break lines at block elements)']
     chk.ensure('plain', 'xvdrv')
-    n = 6000 if chk.tier == 'quick' else 2000000
+    n = 20000 if chk.tier == 'quick' else 2000000
     chk.run_cases('c08', 'xml_case', range(n))
     chk.run_cases('c08', 'text_case', range(n // 4))
     chk.run_cases('c08', 'html_case', range(n // 3))
